@@ -294,6 +294,11 @@ class Seams:
         self.saved = []
 
     def _set(self, mod, name, value):
+        # a refactoring may have removed the attribute: then this seam is simply absent (injection stops
+        # there, visible as fired = 0 in the evidence); the oracles do not depend on it
+        if not hasattr(mod, name):
+            self.env.count(f'seam_missing:{mod.__name__}.{name}')
+            return
         self.saved.append((mod, name, getattr(mod, name)))
         setattr(mod, name, value)
 
@@ -305,8 +310,8 @@ class Seams:
             self._set(mod, 'np', proxy)
 
         # --- scipy seams in krylov ---
-        real_eigh_tri = ptn.krylov.eigh_tridiagonal
-        real_expm = ptn.krylov.expm
+        real_eigh_tri = getattr(ptn.krylov, 'eigh_tridiagonal', None)
+        real_expm = getattr(ptn.krylov, 'expm', None)
 
         def eigh_tridiagonal(d, e, *args, **kwargs):
             env.count('eigh_tridiagonal')
@@ -349,6 +354,8 @@ class Seams:
             wrapper.__wrapped__ = real
             return wrapper
 
+        def have(mod, name):
+            return getattr(mod, name, None)
         real_qr = ptn.bond_ops.qr
         wqr = wrap(real_qr, 'qr')
         for mod in (ptn.mps, ptn.mpo, ptn.evolution):
